@@ -142,9 +142,9 @@ def red_random_trace(args):
                 a, a_ = "timeout", []
             else:
                 code = rng.choice([301, 302, 302, 303, 307, 308] * 3 + [200, 404, 300, 304, 500])
-                loc = rng.choice([1, 1, 2, 3, 4, 5, 6, 0] if not url_creds else [1, 1, 1, 3, 4, 5, 6, 0])
+                loc = rng.choice([1, 1, 2, 3, 4, 5, 6, 7, 8, 0] if not url_creds else [1, 1, 8, 3, 4, 5, 6, 7, 0])
                 a, a_ = "respond", [code, loc]
-                if loc != 1:
+                if loc not in (1, 8):
                     url_creds = False
             obs = real.step(a, a_)
             ev.append({"a": a, "args": a_, "obs": obs})
@@ -173,30 +173,30 @@ def _red_c2s_sig(t, bad, l):
 
 def run(ctx):
     # ---- admission
-    ctx.mc("httpm", "ClientAdmission", "MC_ClientAdmission.cfg", liveness=True,
+    ctx.mc("httpm", "ClientAdmission", "MC_ClientAdmission.cfg", timeout=ctx.pick(900, 3000), liveness=True,
            overrides=ctx.pick({}, {"NF": 5, "MaxClients": "{1, 2, 3}", "Timeouts": "{0, 1, 2, 12, 20, 21}"}),
            required_actions=["Fetch", "Finish", "Advance"])
     L = ctx.pick(5, 7)
-    paths = ctx.gen_paths("httpm", "Gen_ClientAdmission", "Gen_ClientAdmission.cfg", overrides={"L": L})
+    paths = ctx.gen_paths("httpm", "Gen_ClientAdmission", "Gen_ClientAdmission.cfg", timeout=ctx.pick(900, 3000), overrides={"L": L})
     ctx.replay(paths, adm_replayer, label="s2c-adm")
     n = ctx.pick(300, 5000)
     traces = framework.pool_map(adm_random_trace, [(i + 1, ctx.seed * 1000003 + i) for i in range(n)])
-    ctx.validate("httpm", "Trace_ClientAdmission", "Trace_ClientAdmission.cfg", traces, label="c2s-adm")
+    ctx.validate("httpm", "Trace_ClientAdmission", "Trace_ClientAdmission.cfg", traces, timeout=ctx.pick(900, 3000), label="c2s-adm")
     # ---- redirects
-    ctx.mc("httpm", "Redirects", "MC_Redirects.cfg", required_actions=["Respond", "Drop", "Timeout"])
+    ctx.mc("httpm", "Redirects", "MC_Redirects.cfg", timeout=ctx.pick(900, 3000), required_actions=["Respond", "Drop", "Timeout"])
     # (method x status x Location) with multi-valued headers / URL credentials, chains of 2 responses
-    pa = ctx.gen_paths("httpm", "Gen_Redirects", "Gen_Redirects.cfg",
+    pa = ctx.gen_paths("httpm", "Gen_Redirects", "Gen_Redirects.cfg", timeout=ctx.pick(900, 3000),
                        overrides=ctx.pick({"L": 2}, {"L": 3, "MaxRs": "{1, 2, 3}", "HdrSel": "{220, 1, 112}"}))
     ctx.replay(pa, red_replayer, label="s2c-red")
     # (header set x Location) for two methods and two statuses
-    pb = ctx.gen_paths("httpm", "Gen_Redirects", "Gen_Redirects.cfg",
+    pb = ctx.gen_paths("httpm", "Gen_Redirects", "Gen_Redirects.cfg", timeout=ctx.pick(900, 3000),
                        overrides={"L": 2, "Methods": '{"GET", "POST"}', "MaxRs": "{2}", "Codes": "{200, 302, 307}",
                                   "HdrSel": "{0, 100, 200, 10, 20, 110, 220, 120, 210, 1, 2, 101, 102, 11, 12, 221, 222, 211}"})
     ctx.replay(pb, red_replayer, label="s2c-red")
     ctx.cov["exhaustive"] = True
     n = ctx.pick(500, 8000)
     traces = framework.pool_map(red_random_trace, [(100000 + i, ctx.seed * 1000003 + 77 + i) for i in range(n)])
-    ctx.validate("httpm", "Trace_Redirects", "Trace_Redirects.cfg", traces, label="c2s-red", sig_fn=_red_c2s_sig)
+    ctx.validate("httpm", "Trace_Redirects", "Trace_Redirects.cfg", traces, timeout=ctx.pick(900, 3000), label="c2s-red", sig_fn=_red_c2s_sig)
     ctx.cov["rule"] = ("admission: every schedule of fetch(timeouts)/connection end (ok, failure)/clock advance up to length %d for "
                        "4 fetches and max_clients 1..2 on a real SimpleAsyncHTTPClient with a scripted connection class, plus random "
                        "recorded schedules (30 fetches); redirects: every chain of up to 2 (3 thorough) server answers "
